@@ -1436,8 +1436,9 @@ class Node:
         if conn.ident in self.peer_sockets:
             del self.peer_sockets[conn.ident]
         peer = self._find_connection_peer(conn)
-        if peer:
-            # unset so that a new connection may be made later
+        if peer and (peer.connection is None or peer.connection is conn):
+            # unset so that a new connection may be made later; a peer that
+            # still holds another, live connection is left alone
             peer.connection = None
             peer.last_disconnect = int(time.time())
             # only set if not yet set
